@@ -525,22 +525,36 @@ def check(prop, tier, only_units, jobs, native_replay=True):
 
 
 def replay(prop, path):
+    """Re-executes a stored replay natively against the *current* /repo: exit 1 if the failure reproduces."""
     rec = json.load(open(path))
     u = next((x for x in UNITS if x["id"] == rec["unit"]), None)
     if not u:
         print("unknown unit in replay file")
         return 2
-    print("replaying %s / %s: %s" % (prop, u["id"], "; ".join(f["description"] for f in rec.get("failed_obligations", []))))
+    print("replaying %s / %s: %s" % (prop, u["id"], "; ".join(f["description"] for f in rec.get("failed_obligations", []))[:400]))
+    ok, out = None, ""
     if rec.get("engine") == "K" and rec.get("concrete_playback_test"):
         ok, out = native_playback(u, rec["concrete_playback_test"])
-        print(out[-2500:])
-        print("native outcome: %s" % ok)
-        if ok == "reproduced":
-            print("VIOLATION property=%s replay=%s" % (prop, path))
-            return 1
-        return 0 if ok == "not-reproduced" else 2
-    # no concrete input: re-run the unit itself
-    return check(prop, "thorough", [u["id"]], 4)
+    elif rec.get("engine") == "K" and rec.get("native_test") and u.get("native_test"):
+        ok, out = native_test(u["file"], u["native_test"]["name"], rec["native_test"])
+    elif rec.get("engine") == "PY":
+        outcomes = []
+        for r in rec.get("replays", []):
+            m = re.search(r"fn (\w+)\(", r.get("native_test", "") or "")
+            if m:
+                o, t = native_test("galois_field", m.group(1), r["native_test"])
+                outcomes.append(o)
+                out += t[-1200:]
+        ok = "reproduced" if "reproduced" in outcomes else ("not-reproduced" if outcomes else None)
+    if ok is None:
+        # no concrete input stored (Verus units, timeouts): re-run the unit itself on the current tree
+        return check(prop, "thorough", [u["id"]], 4)
+    print(out[-2500:])
+    print("native outcome: %s" % ok)
+    if ok == "reproduced":
+        print("VIOLATION property=%s replay=%s" % (prop, path))
+        return 1
+    return 0 if ok == "not-reproduced" else 2
 
 
 def setup():
